@@ -28,6 +28,7 @@ class Report:
         self.tier, self.verif, self.out = tier, verif, out
         self.obls, self.viol, self.floors = [], [], []
         self.functions = set()
+        self.extra = {}
         self.start = time.time()
 
     def _add(self, rule, fn, construct, pos, ok, trivial, how, msg=""):
@@ -128,6 +129,7 @@ class Report:
             "trusted_base": ["CPython ast module", "semantics of dict/list methods named in the rules (setdefault, append, remove, get, del)"],
             "known_findings": len(viol) - unknown, "exhaustive": True,
         }
+        cov.update(self.extra)
         ev = {"property_id": PROP, "tier": self.tier, "seed": 0, "level": "other", "coverage": cov,
               "assumptions": ["pybess/pyroute2 behave as their names say; the handlers are only entered through the registration sites in this file"],
               "wall_s": wall, "violations": unknown}
@@ -357,6 +359,9 @@ def main():
         import traceback
         traceback.print_exc()
         undecided("analyser", f"{type(e).__name__}: {e}")
+    replay = None
+    if a.tier == "thorough" and not [v for v in r.viol]:
+        replay = replay_seeds(a.verif, a.repo)
     explanation = (
         "R20.1 module-name agreement: the Update module is created, linked and deleted under the same normal form "
         "(helpers inlined, locals resolved), add and delete address the same lookup module; R20.2 pending routes: the unresolved cache keeps a "
@@ -370,7 +375,46 @@ def main():
     )
     not_decided = ("the refinement between an arbitrary netlink event history and the BESS module graph; duplicate RTM_NEWROUTE events for one route "
                    "(the controller keeps no set of installed routes); the SIGHUP reconfigure path; failures inside BESS calls")
+    r.extra = {"seed_replay": replay, "seeded_changes_replayed": len(replay)} if replay is not None else {}
     sys.exit(r.finish(explanation, not_decided))
+
+
+def replay_seeds(verif, repo):
+    """Thorough tier: every seeded change recorded for C20 is applied to a scratch copy of the controller
+    (outside /repo and /verif, removed afterwards) and the rules are run on the copy in a child process;
+    the verdict must be the recorded one. A mismatch is a checker regression: UNDECIDED, not a VIOLATION."""
+    import glob
+    import shutil
+    import subprocess
+    import tempfile
+    out = []
+    for d in sorted(glob.glob(os.path.join(verif, "seeded", "*"))):
+        try:
+            meta = json.load(open(os.path.join(d, "meta.json")))
+        except (OSError, ValueError):
+            continue
+        exp = (meta.get("thorough_expectation") or {}).get(PROP)
+        if not exp:
+            continue
+        scratch = tempfile.mkdtemp(prefix="route-rules-seed-")
+        try:
+            os.makedirs(os.path.join(scratch, "repo", "conf"))
+            shutil.copy(os.path.join(repo, "conf", "route_control.py"), os.path.join(scratch, "repo", "conf"))
+            patch = os.path.join(d, meta.get("patch_used") or "patch.diff")
+            ap = subprocess.run(["patch", "-p1", "-s", "-i", patch], cwd=os.path.join(scratch, "repo"), capture_output=True, text=True)
+            if ap.returncode != 0:
+                got = "patch does not apply"
+            else:
+                ch = subprocess.run([sys.executable, os.path.abspath(__file__), "--prop", PROP, "--tier", "quick", "--repo", os.path.join(scratch, "repo"),
+                                     "--verif", verif, "--out", os.path.join(scratch, "ev")], capture_output=True, text=True)
+                got = {0: "silent", 1: "detected"}.get(ch.returncode, "undecided")
+        finally:
+            shutil.rmtree(scratch, ignore_errors=True)
+        out.append({"seed": os.path.basename(d), "expected": exp, "got": got})
+        if not (exp == got or (exp == "not-decided" and got in ("silent", "detected"))):
+            undecided("thorough.seed-replay", f"seeded change {os.path.basename(d)}: expected {exp}, got {got} — the rule set no longer behaves as confirmed (checker regression, not a finding about the tree)")
+    print(f"{PROP} thorough: {len(out)} seeded changes replayed, all as recorded")
+    return out
 
 
 def run_rules(m, r):
